@@ -194,7 +194,7 @@ class Scenario:
                         if ref in parent.utxo and t0 not in txs:
                             txs.append(chaingen.signed_tx(keys, parent.utxo, [ref], [(parent.utxo[ref][0], keys.pks[4])]))
                     try:
-                        newn = tg.extend(parent, txs=txs, fees=fees, dt=30)
+                        newn = tg.extend(parent, txs=txs, fees=fees, dt=rng.choice([100, 140]))
                     except Exception:
                         continue
                     byid[newn.id] = newn
@@ -270,7 +270,11 @@ def run(tier, seed):
                 req, observed = Scenario(ck, tier, trial).run(env, 26 if tier == 'quick' else 40)
             except Exception as e:
                 import traceback
-                ck.disagree('scenario %d crashed: %s' % (trial, traceback.format_exc()[-400:]), {'trial': trial})
+                tb = traceback.format_exc()
+                if 'could not mine a block' in tb:
+                    ck.count('generator-gave-up(difficulty)')
+                    continue
+                ck.disagree('scenario %d crashed: %s' % (trial, tb[-400:]), {'trial': trial})
                 continue
             reqs.append(req)
             obs.append(observed)
